@@ -783,6 +783,20 @@ class Mailbox:
                 #
                 await self.command_can_proceed(imap_cmd)
 
+                # While this command was waiting for its turn other commands
+                # may have expunged messages, so the message sequence numbers
+                # computed above may by now name different messages. Resolve
+                # the message set again now that the command is about to run.
+                #
+                try:
+                    imap_cmd.msg_set_as_set = self.msg_set_to_msg_seq_set(
+                        imap_cmd.msg_set, imap_cmd.uid_command
+                    )
+                except Bad as e:
+                    imap_cmd.error = e
+                    imap_cmd.ready.set()
+                    continue
+
                 # If there are no tasks, do a resync. Also potentially pack the
                 # folder (doing it while there are no commands running to
                 # prevent any sort of sync between client and server errors.)
